@@ -52,16 +52,25 @@ def load_known():
 _tree_hash = {}
 
 
-def tree_hash():
+def tree_hash(runtime_only=False):
     """sha256 over every source the verdict of a function can depend on: the
     python sources of the tree under verification and the verifier itself
     (engine, contracts, specifications, lemmas, known findings)"""
-    if 'h' in _tree_hash:
-        return _tree_hash['h']
+    fam = 'runtime' if runtime_only else 'all'
+    if fam in _tree_hash:
+        return _tree_hash[fam]
     h = hashlib.sha256()
-    roots = [os.path.join(REPO, 'stone'), os.path.join(HERE, 'pyvc'), os.path.join(HERE, 'contracts'),
-             os.path.join(HERE, 'spec'), os.path.join(HERE, 'lemmas')]
+    # the runtime modules (python_rsrc) import nothing else of stone but backends/helpers.py: the
+    # verdict of a function defined there cannot depend on the compiler, the CLI or the generators
+    repo_roots = ([os.path.join(REPO, 'stone', 'backends', 'python_rsrc'), os.path.join(REPO, 'stone', 'backends', 'helpers.py')]
+                  if runtime_only else [os.path.join(REPO, 'stone')])
+    roots = repo_roots + [os.path.join(HERE, 'pyvc'), os.path.join(HERE, 'contracts'),
+                          os.path.join(HERE, 'spec'), os.path.join(HERE, 'lemmas')]
     for root in roots:
+        if os.path.isfile(root):
+            h.update(root.encode())
+            h.update(open(root, 'rb').read())
+            continue
         for dp, dns, fns in sorted(os.walk(root)):
             dns.sort()
             if '__pycache__' in dp:
@@ -73,8 +82,8 @@ def tree_hash():
                     h.update(open(p, 'rb').read())
     for extra in ('known_findings.json', 'checker.py'):
         h.update(open(os.path.join(HERE, extra), 'rb').read())
-    _tree_hash['h'] = h.hexdigest()
-    return _tree_hash['h']
+    _tree_hash[fam] = h.hexdigest()
+    return _tree_hash[fam]
 
 
 def cached_worker(job):
@@ -88,7 +97,8 @@ def cached_worker(job):
         return worker(job)
     cdir = os.path.join(HERE, '.cache')
     os.makedirs(cdir, exist_ok=True)
-    key = hashlib.sha256(('%s|%s|%s' % (tree_hash(), target, tier)).encode()).hexdigest()
+    runtime_only = target.startswith('stone.backends.python_rsrc.') or target.startswith('lemma:C04.')
+    key = hashlib.sha256(('%s|%s|%s' % (tree_hash(runtime_only), target, tier)).encode()).hexdigest()
     path = os.path.join(cdir, key + '.json')
     if os.path.exists(path):
         try:
@@ -215,6 +225,20 @@ def main():
     os.makedirs(replay_dir, exist_ok=True)
     n_search = {'quick': 150, 'thorough': 2000}[args.tier]
 
+    # bounded oracle comparisons run concurrently (one interpreter process per function)
+    def _search(t):
+        r = by_target[t]
+        if r.get('crash'):
+            return None
+        n_here = n_search * 4 if r.get('bounded_only') else n_search
+        return native({'mode': 'search', 'contract_modules': CONTRACT_MODULES, 'target': t,
+                       'n': n_here, 'seed': seed,
+                       'known_cases': [k['case'] for k in known if k.get('status') == 'known' and k['target'] == t
+                                       and k['property'] == prop and k.get('case')]}, timeout=3600)
+    import concurrent.futures
+    with concurrent.futures.ThreadPoolExecutor(max_workers=max(1, args.jobs)) as ex:
+        search_results = dict(zip(targets, ex.map(_search, targets)))
+
     for t in targets:
         r = by_target[t]
         if r.get('crash'):
@@ -236,10 +260,7 @@ def main():
         bad = [o for o in r['obligations'] if o['status'] != 'discharged']
         # bounded oracle comparison (never counted as proved): every function, every run
         n_here = n_search * 4 if r.get('bounded_only') else n_search
-        sr = native({'mode': 'search', 'contract_modules': CONTRACT_MODULES, 'target': t,
-                     'n': n_here, 'seed': seed,
-                     'known_cases': [k['case'] for k in known if k.get('status') == 'known' and k['target'] == t
-                                     and k['property'] == prop and k.get('case')]})
+        sr = search_results[t]
         if r.get('bounded_only'):
             bounded_only_funcs.append(t)
             src = sr.get('source') or {}
@@ -251,6 +272,26 @@ def main():
                                'cases': sr.get('accepted'), 'distinct': sr.get('distinct'),
                                'inputs_under_known_findings': sr.get('known_hits', 0),
                                'passed': sr.get('mismatch') is None and 'native_error' not in sr})
+        if 'corpus_error' in sr:
+            # the corpus specs are valid Stone; on the unchanged tree they compile and import on every run.
+            # A tree whose frontend / python_types backend cannot build them has broken every property of the
+            # generated classes for these types: reported once, with the specs as the failing input.
+            if not any(v.get('corpus') for v in violations):
+                path = os.path.join(replay_dir, '%s_corpus_build.json' % prop)
+                try:
+                    sys.path.insert(0, HERE)
+                    import spec.corpus as _corpus
+                    specs = _corpus.SPECS
+                except Exception:
+                    specs = None
+                json.dump({'property': prop, 'obligation': 'the corpus of valid specs compiles with the frontend and the '
+                           'python_types backend of this tree and the generated modules import (precondition of every '
+                           'bounded comparison; holds on the unchanged tree)', 'target': t, 'tree': {'repo': REPO},
+                           'found_by': 'corpus-build', 'input': {'specs': specs}, 'observed': sr['corpus_error']},
+                          open(path, 'w'), indent=1, default=str)
+                violations.append({'replay': path, 'suffix': '', 'corpus': True})
+            bounded_checks[-1]['passed'] = False
+            continue
         if 'native_error' in sr:
             fault.append('native search failed for %s: %s' % (t, sr['native_error'][-400:]))
         search_hit = sr.get('mismatch')
